@@ -1,6 +1,6 @@
 NA={}
 chk("C01","fault_enumeration",
- "every history up to the stated depth over the op alphabet is executed on the real engine (fresh process per lifetime) and, in the last lifetime, the file-system tree before every FS-mutating system call is a crash point from which a fresh process recovers and is judged against the reference set of acknowledged events",
+ "every history up to the stated depth over the op alphabet is executed on the real engine (fresh process per lifetime) and, in the last lifetime, the file-system tree before every FS-mutating system call is a crash point from which a fresh process recovers and is judged against the reference set of acknowledged events; configurations with a buffered WAL are judged by the weak crash clause (per-shard prefix of the applied events, no duplicates, no corruption) at crash points and by the strong clause across clean restarts",
  "process-crash model (completed syscalls persist); single-threaded tokio runtime, paused clock; known findings matched by the protocol model in harness/src/c01model.rs",
  "exhaustive bounded history enumeration x exhaustive crash-point enumeration on the implementation (FS interposition)","histx+crashx","DESIGN.md §2.5 §2.6 §3 C01")
 chk("C17","exploration",
